@@ -25,10 +25,11 @@ def apply_bounds(genomes: np.ndarray, bounds: np.ndarray, method: str) -> np.nda
         # Even flips mean the value is within the range, odd flips mean it should be mirrored
         is_odd_flip = np.mod(flips, 2) == 1
         reflected_genomes = np.where(is_odd_flip, range_size - mod_genomes, mod_genomes)
-        # Return genomes to their original positions with bounds applied
-        return lower_bounds + reflected_genomes
+        # Return genomes to their original positions with bounds applied. The final addition can round one ulp
+        # past a face when the range is not exactly representable (e.g. (-0.1, 0.2)), hence the clip.
+        return np.clip(lower_bounds + reflected_genomes, lower_bounds, upper_bounds)
     elif method == "toroidal":
         range_size = upper_bounds - lower_bounds
-        return lower_bounds + (genomes - lower_bounds) % range_size
+        return np.clip(lower_bounds + (genomes - lower_bounds) % range_size, lower_bounds, upper_bounds)
     else:
         raise ValueError(f"Unknown method: {method}")
